@@ -19,7 +19,17 @@ relaxation branch from the zero guess (`relaxSolve`).  The driver runs exactly t
 (`c16_run`) against the real objects on every check.  LAPACK / SuperLU enter through their contracts,
 made executable by an exact pseudo-inverse `pinvD` whose output is never trusted: the theorems take
 the Boolean certificates `isPinv` / `isInv` / `isHPD` (evaluated by the driver per instance) as
-hypotheses.  `toMat`, `toVec` read the model's arrays as Mathlib matrices / vectors. -/
+hypotheses.  `toMat`, `toVec` read the model's arrays as Mathlib matrices / vectors.
+
+Clause by clause (T = theorem about the executed model, H = hypothesis checked per instance, S = search only):
+* direct solvers return the solution in the shape of `b`  — T `pinv/lu/cholesky_call_solves`, `splu_call_spec`,
+  `call_shape`; H the inverse certificate `isInv` (and `isHPD` for Cholesky); S rounding of LAPACK/SuperLU
+* pinv = minimum-norm least squares on singular matrices — T `pinv_call_min_norm`; H `isPinv` (real case; complex S)
+* splu tolerates zero rows and columns                    — T `splu_call_spec`, `splu_call_solves_all`
+* repeated calls reuse the factorisation and stay correct — T `run_same_matrix`, `run_factor_once`
+* a matrix without nonzeros yields a zero correction      — T `call_empty`
+* relaxation solvers start from zero, energy norm         — T `relax_gs_energy`, `relax_sor_energy` (gauss_seidel, sor);
+  S the other names; NE/NR variants: known finding, 2-norm facts `kaczmarz_*` -/
 namespace PyamgV.Props.C16
 open PyamgV PyamgV.C16
 
@@ -43,6 +53,8 @@ restate cache_run_same_matrix := PyamgV.Cache.run_same_matrix
 
 /-- pseudo-inverse: least-squares solution of minimum 2-norm, singular matrices included -/
 restate pinv_call_min_norm := PyamgV.C16.pinv_call_min_norm
+/-- pseudo-inverse on a nonsingular matrix: the unique solution -/
+restate pinv_call_solves := PyamgV.C16.pinv_call_solves
 /-- dense LU: the unique solution when the certified inverse exists -/
 restate lu_call_solves := PyamgV.C16.lu_call_solves
 /-- Cholesky: the same on Hermitian positive definite matrices -/
